@@ -225,7 +225,9 @@ class Tdf:
         else:
             raise TypeError(f"Expected int or BlockType, got {type(index_or_type)}")
 
-        self.handler.seek(entry.offset, 0)
+        if entry.type != BlockType.unusedSlot:
+            # (the offset of an unused slot means nothing and may not even be seekable)
+            self.handler.seek(entry.offset, 0)
         block_class = _get_block_class(entry.type)
         return block_class._build(self.handler, entry.format)
 
